@@ -271,4 +271,21 @@ def run(ctx):
         ctx.q('T.pauli_transform', 'transform %s %s' % (H.erows_ops(M), H.erows_ops(Ps)),
               [O.from_gp([ival(v) for v in g], ival(p)) for g, p in zip(tt[0].tolist(), tt[1].tolist())], H.drows_ops)
         ctx.q('T.acq', 'acq %s %s' % (E.estr(ga), E.estr(gb)), ival(TU.acq(tg(P[0]), tg(Q[0]))), int)
+        # ---- correspondence of the torch kernels with their own Lean model (Model/Torch.lean)
+        ctx.q('T.acq_grid', 'T.acqgrid %s %s' % (E.estr(ga), E.estr(gb)), ival(TU.acq_grid(tg(P[0]).unsqueeze(0), tg(Q[0]).unsqueeze(0))[0, 0]), int)
+        ctx.q('T.clifford_rotate(model)', 'T.rotate %s %s' % (E.epauli(O.to_g(Gop[0]), Gop[1]), H.erows_ops(Ps)),
+              [O.from_gp([ival(v) for v in g], ival(p)) for g, p in zip(tr[0].tolist(), tr[1].tolist())], H.drows_ops)
+        ts = TU.clifford_rotate_signless(tg(Gop[0]), tgsP.clone())
+        ctx.q('T.clifford_rotate_signless', 'T.rotsignless %s %s' % (E.estr(O.to_g(Gop[0])), E.estrs(gsP.tolist())), [[ival(v) for v in row] for row in ts.tolist()], E.dstrs)
+        ctx.q('T.pauli_is_onsite', 'T.onsite %s %d' % (E.estr(O.to_g(nz)), i0), bool(TU.pauli_is_onsite(tg(nz), i0)), lambda s: s == 'true')
+        ctx.q('T.front', 'T.front %s' % E.estr(O.to_g(nz)), ival(TU.front(tg(nz))), int)
+        tcd = TU.condense(tg(nz))
+        ctx.q('T.condense', 'T.condense %s' % E.estr(O.to_g(nz)), (E.estr([ival(v) for v in tcd[0].tolist()]), [ival(q) for q in tcd[1].tolist()]),
+              lambda s: (s.split(' ')[0], E.dints(s.split(' ')[1])))
+        tms = TU.map_to_state(tgm, tpm)
+        ctx.q('T.map_to_state', 'T.maptostate %s' % H.erows_ops(M), [O.from_gp([ival(v) for v in g], ival(p)) for g, p in zip(tms[0].tolist(), tms[1].tolist())], H.drows_ops)
+        tsm = TU.state_to_map(tgm, tpm)
+        ctx.q('T.state_to_map', 'T.statetomap %s' % H.erows_ops(M), [O.from_gp([ival(v) for v in g], ival(p)) for g, p in zip(tsm[0].tolist(), tsm[1].tolist())], H.drows_ops)
+        tve = TU.vectorizable_stabilizer_expect(tgr, tpr, torch.tensor(go, dtype=F), torch.tensor(po, dtype=F), r)
+        ctx.q('T.vectorizable_stabilizer_expect', 'T.vecexpect %d %s %s' % (r, H.erows_ops(rows), H.erows_ops(obs)), [ival(v) for v in tve.tolist()], E.dints)
         ctx.q('T.ipow', 'ipow %s %s' % (E.estr(ga), E.estr(gb)), ival(TU.ipow(tg(P[0]), tg(Q[0]))), int)
